@@ -31,7 +31,13 @@ const LAZY: &str = "let lz = import! std.lazy.prim\n";
 /// A tail recursive family parameterised by the iteration count `N`
 fn tail_family(rng: &mut Rng) -> String {
     // every syntactic tail context: if branches, let body, match arm, right operand of || and &&
-    match rng.below(10) {
+    match rng.below(14) {
+        // tail calls between functions of different arity, through a function held in a record
+        // field, with an extern call as the last non-tail step, to a closure with upvalues
+        10 => "(rec let f a = g a 1 2\n let g a b c = if a #Int< 1 then b #Int+ c else f (a #Int- 1) in f @N@)".to_string(),
+        11 => "(rec let f a b c d = if a #Int< 1 then b #Int+ c #Int+ d else g (a #Int- 1)\n let g a = f a 1 2 3 in g @N@)".to_string(),
+        12 => "(let step = { k = \\n acc -> acc #Int+ (array.len [n]) } in (rec let loop n acc = if n #Int< 1 then acc else loop (n #Int- 1) (step.k n acc) in loop @N@ 0))".to_string(),
+        13 => "(let mk d = (rec let loop n acc = if n #Int< 1 then acc else loop (n #Int- 1) (acc #Int+ d) in loop) in (mk 2) @N@ 0)".to_string(),
         6 => "(rec let loop n = (n #Int< 1) || loop (n #Int- 1) in if loop @N@ then 1 else 0)".to_string(),
         7 => "(rec let loop n = (n #Int< 1) || ((0 #Int< n) && loop (n #Int- 1)) in if loop @N@ then 1 else 0)".to_string(),
         8 => "(rec let loop n acc = if n #Int< 1 then acc else (let m = n #Int- 1 in let b = acc #Int+ 1 in loop m b) in loop @N@ 0)".to_string(),
@@ -46,7 +52,11 @@ fn tail_family(rng: &mut Rng) -> String {
 }
 
 fn deep_family(rng: &mut Rng) -> String {
-    match rng.below(4) {
+    match rng.below(7) {
+        // frames with many locals, recursion below an extern call's argument, over-application
+        4 => "(rec let deep n = if n #Int< 1 then 0 else (let a = n #Int+ 1 in let b = a #Int+ 1 in let c = b #Int+ 1 in let d = c #Int+ 1 in let e = d #Int+ 1 in let f = e #Int+ 1 in (a #Int+ b #Int+ c #Int+ d #Int+ e #Int+ f #Int- (6 #Int* n) #Int- 21) #Int+ 1 #Int+ deep (n #Int- 1)) in deep @N@)".to_string(),
+        5 => "(rec let deep n = if n #Int< 1 then 0 else array.len [deep (n #Int- 1), n] #Int+ deep (n #Int- 1) #Int- 2 #Int+ 1 in deep (if @N@ #Int< 16 then @N@ else 16))".to_string(),
+        6 => "(rec let deep n = if n #Int< 1 then (\\x y -> x #Int+ y) else (let r = deep (n #Int- 1) in (\\x -> r (x #Int+ 1))) in deep @N@ 0 1)".to_string(),
         0 => "(rec let deep n = if n #Int< 1 then 0 else 1 #Int+ deep (n #Int- 1) in deep @N@)".to_string(),
         1 => "(rec let f n = if n #Int< 1 then 0 else 1 #Int+ g (n #Int- 1)\n let g n = if n #Int< 1 then 0 else 2 #Int+ f (n #Int- 1) in f @N@)".to_string(),
         2 => "(rec let deep k n = if n #Int< 1 then [k] else array.append [n] (deep k (n #Int- 1)) in array.len (deep 1 @N@))".to_string(),
@@ -184,7 +194,10 @@ impl Engine for C07 {
             "tail" => json!({ "class": class, "body": tail_family(rng) }),
             "interrupt" => {
                 let infinite = rng.chance(1, 2);
-                let body = if infinite {
+                let body = if infinite && rng.chance(1, 3) {
+                    // the loop body is extern calls only
+                    "(rec let loop n = loop (array.len [n, n]) in loop @N@)".to_string()
+                } else if infinite {
                     "(rec let loop n = loop (n #Int+ 1) in loop @N@)".to_string()
                 } else if rng.chance(1, 2) {
                     tail_family(rng)
